@@ -141,6 +141,15 @@ def build_inputs(tier):
               "w = (`a.*`\n,\n p'/x'\n / 'y')\n", "${'X'} = 1\n", "${'A' 'B'}, c = 1, 2\n", "for ${'X'} in z: pass\n", "with f as ${'FH'}: pass\n", "[i for ${'K'} in z]\n", "(${'X'}) = 1\n", "*${'X'}, y = 1, 2\n",
               "${'X'}: int = 1\n" if False else "q = ${'X'}\n", "a = (b\n  and $X\n  || ${'Y'}\n  && c)\n"]:
         cases.append(("edge-multiline", s, "exec"))
+    # implicit concatenations whose pieces span lines (spans of the merged literal parts): the C10 family, and call macros laid
+    # out over several lines (spans of the raw-argument constants)
+    from harness.props import c10 as _c10
+
+    for c in _c10.build_inputs(tier):
+        if c[0] in ("concat-multiline", "multiline-field", "spec-then-continuation"):
+            cases.append(("string-concat", c[1], c[2]))
+    for s in ["f!(x,\n   y)\n", "f!(x\n)\n", "r = g!(\n  a,\n  b\n)\n", "f!(\n x)\n", "h!(a, (b,\n c), d)\n", "x = f'{a} b' \'\'\'c\nd\'\'\'\n", "x = ('p'\n  f'q{r}'\n  \'\'\'s\nt\'\'\')\n"]:
+        cases.append(("multiline-macro", s, "exec"))
     for i in range(250 * N):
         g = pyprog.gen_program(r, fstrings=True, maxdepth=3, nstmts=r.randint(1, 3))
         if g:
